@@ -99,7 +99,8 @@ def split_allocation_shapes(S, k):
     def rec(r, al, d, lv=0):
         S.ensure("split.measure_decreases", sand(lv >= 0, lv < levels))
         return split_stub(S)(r, al, d, lv)
-    S.patch(Allocation, "_split_allocation", staticmethod(rec))
+    if S.mode == "sym":
+        S.patch(Allocation, "_split_allocation", staticmethod(rec))
     out = S.call(REAL_SPLIT, rect, alloc, depth, levels)
     S.ensure("split.no_raise", out.ok)
     if out.ok:
